@@ -43,6 +43,7 @@ type Profile struct {
 	PSingle                                                   int  // extra chance of a 1-voter group
 	UniformFeatures                                           bool // all nodes share PreVote/CheckQuorum
 	UniformTicks                                              bool // all nodes share ElectionTick/HeartbeatTick
+	PFive                                                     int  // extra chance of five voters, all initial members
 	PBigGroup                                                 int  // chance of a group of 8..10 ids
 	PNoCCVal                                                  int  // chance that the group runs with DisableConfChangeValidation
 	AllowZeroApplyQuota                                       bool
@@ -56,12 +57,12 @@ var baseWeights = map[string]int{
 	"propose": 8, "proposebatch": 1, "proposeconf": 2, "transfer": 1, "readindex": 2,
 	"campaign": 1, "forget": 1, "unreachable": 1, "reportsnap": 3, "compact": 1,
 	"crash": 1, "restart": 4, "isolate": 1, "blocklink": 1, "heal": 2,
-	"duprecent": 2, "diverge": 1, "proposemixed": 1, "burst": 3, "slowdisk": 2, "lagcompact": 1, "stallelect": 1, "hold": 1, "release": 2, "snaprace": 0, "snapunavail": 1,
+	"duprecent": 2, "diverge": 1, "proposemixed": 1, "burst": 3, "slowdisk": 2, "lagcompact": 1, "stallelect": 1, "hold": 1, "release": 2, "snaprace": 0, "snapunavail": 1, "comeback": 1, "crashrecampaign": 1,
 }
 
 func mkProfile(name string, over map[string]int, f func(p *Profile)) *Profile {
 	p := &Profile{Name: name, W: map[string]int{}, PAsync: 40, PPreVote: 40, PCheckQuorum: 40, PStepDown: 30, PNoFwd: 15,
-		PLease: 10, PBootPeers: 20, PTinyLimits: 25, PJoiner: 30, PSingle: 5, PSnapStored: 30, MaxPayload: 120}
+		PLease: 10, PBootPeers: 20, PTinyLimits: 25, PJoiner: 30, PSingle: 5, PSnapStored: 30, MaxPayload: 120, PFive: 15}
 	for k, v := range baseWeights {
 		p.W[k] = v
 	}
@@ -78,15 +79,15 @@ func mkProfile(name string, over map[string]int, f func(p *Profile)) *Profile {
 var Profiles = map[string]*Profile{
 	"base": mkProfile("base", nil, nil),
 	"elect": mkProfile("elect", map[string]int{"tick": 20, "tickall": 10, "tickcampaign": 6, "campaign": 4, "transfer": 4,
-		"dup": 6, "crash": 3, "restart": 8, "propose": 4, "forget": 2, "isolate": 3}, func(p *Profile) { p.PPreVote, p.PCheckQuorum = 50, 50 }),
-	"crash": mkProfile("crash", map[string]int{"stallelect": 3, "crash": 6, "restart": 14, "step": 30, "service": 15, "propose": 10}, func(p *Profile) { p.PAsync = 60 }),
+		"dup": 6, "crash": 3, "restart": 8, "propose": 4, "forget": 2, "isolate": 3, "comeback": 3, "crashrecampaign": 3}, func(p *Profile) { p.PPreVote, p.PCheckQuorum = 50, 50 }),
+	"crash": mkProfile("crash", map[string]int{"comeback": 2, "crashrecampaign": 4, "stallelect": 3, "crash": 6, "restart": 14, "step": 30, "service": 15, "propose": 10}, func(p *Profile) { p.PAsync = 60 }),
 	"snap": mkProfile("snap", map[string]int{"compact": 8, "lagcompact": 5, "snaprace": 4, "hold": 2, "isolate": 4, "heal": 4, "propose": 12, "proposeconf": 3, "dup": 5,
 		"reportsnap": 6, "crash": 2}, func(p *Profile) { p.PJoiner = 60 }),
 	"conf": mkProfile("conf", map[string]int{"proposeconf": 10, "tickcampaign": 4, "campaign": 3, "crash": 2, "restart": 6,
 		"isolate": 3, "compact": 3, "step": 20}, func(p *Profile) { p.PJoiner = 70; p.PNoCCVal = 15 }),
-	"read": mkProfile("read", map[string]int{"readindex": 14, "isolate": 4, "heal": 3, "tickcampaign": 4, "campaign": 3, "proposeconf": 4,
+	"read": mkProfile("read", map[string]int{"comeback": 4, "readindex": 14, "isolate": 4, "heal": 3, "tickcampaign": 4, "campaign": 3, "proposeconf": 4,
 		"crash": 3, "restart": 8, "dup": 4, "step": 20}, func(p *Profile) { p.PLease = 0; p.PSingle = 25 }),
-	"flow": mkProfile("flow", map[string]int{"propose": 25, "proposebatch": 6, "drop": 8, "unreachable": 4, "dup": 4, "step": 15},
+	"flow": mkProfile("flow", map[string]int{"comeback": 2, "propose": 25, "proposebatch": 6, "drop": 8, "unreachable": 4, "dup": 4, "step": 15},
 		func(p *Profile) { p.PTinyLimits = 85; p.MaxPayload = 300 }),
 	"all": mkProfile("all", map[string]int{"proposeconf": 4, "compact": 3, "crash": 2, "restart": 6, "readindex": 3, "transfer": 2,
 		"dup": 4, "isolate": 2}, func(p *Profile) { p.AllowZeroApplyQuota = true }),
@@ -101,7 +102,7 @@ var Profiles = map[string]*Profile{
 	// crashbase: crash-free base schedules for the single-crash enumeration
 	// (C05): every Ready sub-step and storage-thread step is its own action,
 	// so every point the contract allows a crash at is an action boundary.
-	"crashbase": mkProfile("crashbase", map[string]int{"service": 0, "stabilize": 0, "step": 60, "deliver": 40, "crash": 0, "restart": 0,
+	"crashbase": mkProfile("crashbase", map[string]int{"comeback": 0, "crashrecampaign": 0, "service": 0, "stabilize": 0, "step": 60, "deliver": 40, "crash": 0, "restart": 0,
 		"propose": 12, "tick": 10, "tickall": 6, "diverge": 0, "lagcompact": 0, "stallelect": 0, "burst": 2, "slowdisk": 1, "compact": 2,
 		"proposeconf": 2, "dup": 3, "drop": 2}, func(p *Profile) { p.PAsync = 50 }),
 	"live": mkProfile("live", map[string]int{"proposeconf": 5, "compact": 3, "crash": 3, "restart": 4, "readindex": 2, "transfer": 3,
@@ -122,17 +123,21 @@ func DrawWorld(d Drawer, p *Profile) WorldOpts {
 	if big, bn := pct(d, p.PBigGroup, "biggroup"), d.Int(8, 10, "bigN"); p.PBigGroup > 0 && big {
 		N = bn
 	}
+	five := pct(d, p.PFive, "five")
+	if five && N <= 5 {
+		N = 5
+	}
 	w := WorldOpts{Nodes: map[uint64]NodeOpts{}}
 	for i := 1; i <= N; i++ {
 		w.IDs = append(w.IDs, uint64(i))
 	}
 	members := N
 	joiner, mraw := pct(d, p.PJoiner, "joiner"), d.Int(0, 9, "members")
-	if N > 1 && joiner {
+	if N > 1 && joiner && !five {
 		members = 1 + mraw%(N-1)
 	}
 	learners := 0
-	if lr := pct(d, 20, "learner"); members >= 2 && lr {
+	if lr := pct(d, 20, "learner"); members >= 2 && lr && !five {
 		learners = 1
 	}
 	for i := 1; i <= members-learners; i++ {
@@ -466,6 +471,8 @@ func (s *Sim) RandomAction(p *Profile) {
 	})
 	add("snaprace", len(up) >= 2, func() { s.SnapshotRace(p) })
 	add("diverge", len(up) >= 3, func() { s.Diverge(p) })
+	add("comeback", s.comebackFeasible(), func() { s.Comeback(p) })
+	add("crashrecampaign", len(up) >= 3, func() { s.CrashRecampaign(p) })
 	add("lagcompact", len(up) >= 2, func() { s.LagAndCompact(p) })
 	add("stallelect", len(asyncUp) > 0 && len(up) >= 2, func() { s.StallThroughElection(p, asyncUp[d.Int(0, len(asyncUp)-1, "node")]) })
 	add("proposemixed", len(up) > 0, func() { s.proposeMixed(s.proposerNode(up), p) })
@@ -795,8 +802,25 @@ func (s *Sim) drawConfChange() *pb.ConfChangeV2 {
 		cc.Transition = pick(d, "cctr", pb.ConfChangeTransitionJointImplicit, pb.ConfChangeTransitionJointExplicit).Enum()
 	case shape < 9:
 		k := d.Int(2, 3, "ccn")
-		for i := 0; i < k; i++ {
-			cc.Changes = append(cc.Changes, one())
+		// a third of the multi-change proposals shrink or grow the voter set
+		// by several nodes at once (joint configs with several outgoing-only
+		// or incoming-only voters)
+		switch bulk := d.Int(0, 5, "ccbulk"); {
+		case bulk == 0 && len(voters) > k:
+			off := d.Int(0, len(voters)-1, "ccoff")
+			for i := 0; i < k; i++ {
+				id := voters[(off+i)%len(voters)]
+				cc.Changes = append(cc.Changes, single(pick(d, "ccrm", pb.ConfChangeRemoveNode, pb.ConfChangeRemoveNode, pb.ConfChangeAddLearnerNode), id))
+			}
+		case bulk == 1 && len(nonMembers) >= 2:
+			off := d.Int(0, len(nonMembers)-1, "ccoff")
+			for i := 0; i < k && i < len(nonMembers); i++ {
+				cc.Changes = append(cc.Changes, single(pb.ConfChangeAddNode, nonMembers[(off+i)%len(nonMembers)]))
+			}
+		default:
+			for i := 0; i < k; i++ {
+				cc.Changes = append(cc.Changes, one())
+			}
 		}
 		cc.Transition = pick(d, "cctr", pb.ConfChangeTransitionAuto, pb.ConfChangeTransitionJointImplicit, pb.ConfChangeTransitionJointExplicit).Enum()
 	default:
